@@ -82,32 +82,33 @@ Proof.
   - exfalso. apply (Hne f Hf). congruence.
 Qed.
 
-Lemma c4_all_bool4 f : all_bool4 f = true -> forall a b c d, f a b c d = true.
+Lemma c4_all_bool5 f : all_bool5 f = true -> forall a b c d e, f a b c d e = true.
 Proof.
-  intros H a b c d. unfold all_bool4 in H.
+  intros H a b c d e. unfold all_bool5 in H.
   assert (forall x : bool, In x [true; false]) as Hin by (intros [|]; cbn; auto).
   rewrite forallb_forall in H. specialize (H a (Hin a)).
   rewrite forallb_forall in H. specialize (H b (Hin b)).
   rewrite forallb_forall in H. specialize (H c (Hin c)).
-  rewrite forallb_forall in H. exact (H d (Hin d)).
+  rewrite forallb_forall in H. specialize (H d (Hin d)).
+  rewrite forallb_forall in H. exact (H e (Hin e)).
 Qed.
 
 Lemma guard_ok_spec T : guard_ok T = true ->
-  forall a b c d, T a b c d = XNew -> c = true /\ b = false.
+  forall a b c d e, T a b c d e = XNew -> c = true /\ b = false /\ e = true.
 Proof.
-  intros H a b c d E. pose proof (c4_all_bool4 _ H a b c d) as X. cbn in X. rewrite E in X. cbn in X.
-  destruct c, b; cbn in X; try discriminate. split; reflexivity.
+  intros H a b c d e E. pose proof (c4_all_bool5 _ H a b c d e) as X. cbn in X. rewrite E in X. cbn in X.
+  destruct c, b, e; cbn in X; try discriminate. repeat split; reflexivity.
 Qed.
 
 Lemma guard_strict_spec T : guard_strict T = true ->
-  forall a b c d, (a = true -> c = true) -> (c = false \/ (b = true /\ d = false)) -> T a b c d = XReject.
+  forall a b c d e, (a = true -> c = true) -> (c = false \/ (b = true /\ d = false)) -> T a b c d e = XReject.
 Proof.
-  intros H a b c d Hac Hc. pose proof (c4_all_bool4 _ H a b c d) as X. cbn in X.
+  intros H a b c d e Hac Hc. pose proof (c4_all_bool5 _ H a b c d e) as X. cbn in X.
   assert (a && negb c = false) as Z.
   { destruct a; [rewrite (Hac eq_refl)|]; reflexivity. }
   assert (negb c || b && negb d = true) as Y.
   { destruct Hc as [->|[-> ->]]; [reflexivity|]. destruct c; reflexivity. }
-  rewrite Z, Y in X. cbn in X. destruct (T a b c d); try discriminate. reflexivity.
+  rewrite Z, Y in X. cbn in X. destruct (T a b c d e); try discriminate. reflexivity.
 Qed.
 
 Lemma same_origin_sub_of U t g : same_origin t g = true -> sub_of U t g = true.
@@ -419,9 +420,9 @@ Section Typing.
     destruct (match split_colon s with Some (a, b) => (Some a, b) | None => (None, s) end) as [prefix objtype].
     destruct (nsmap_get prefix nsmap) as [ns|]; [|discriminate].
     destruct (reg_get (classkey ns objtype) (x4_reg C)) as [g|]; [|discriminate].
-    destruct (x4_target C (same_origin t g) (is_arr t) (sub_of U t g) (same_name C U t g)) eqn:E; try discriminate.
+    destruct (x4_target C (same_origin t g) (is_arr t) (sub_of U t g) (same_name C U t g) (is_cplx t)) eqn:E; try discriminate.
     - intro H. inversion H. left. reflexivity.
-    - destruct (guard_ok_spec _ Hguard _ _ _ _ E) as [Hs Ha].
+    - destruct (guard_ok_spec _ Hguard _ _ _ _ _ E) as [Hs [Ha _]].
       destruct g as [t2|]; [|discriminate]. intro H. inversion H; subst. right. split; assumption.
   Qed.
 
